@@ -27,6 +27,7 @@ EXPLANATION += " R01.19: in the anchored modules and the shared text utilities n
 EXPLANATION += " R01.22: inside the loop over the files of a refactoring no handler swallows an error (a file is never silently left out of a multi-file change)."
 EXPLANATION += " R01.23: Rename adds the move of a module's file only under a test that the renamed word is the module's own name.  R01.24: no strip / lstrip / rstrip call in rope has an argument that spells an affix (`.py`)."
 EXPLANATION += " R01.12: the comprehension scope seeds its table from what its parent propagates to nested scopes (nothing for a class body), never from all names of the parent."
+EXPLANATION += " R01.25 (=R02.28): a name of __init__.py is left out of the names of the package only as the self-import of a submodule."
 ASSUMPTIONS = ["scope classes are the subclasses of rope.base.pyscopes.Scope found in the working tree"]
 
 SCOPE = "rope.base.pyscopes.Scope"
@@ -104,6 +105,9 @@ def check(ctx, res) -> None:
     from .common import merge_precedence_rule, module_search_order_rule
 
     merge_precedence_rule(ctx, res, "R01.7")
+    from .c02 import init_names_filter_rule
+
+    init_names_filter_rule(ctx, res, "R01.25")
     module_search_order_rule(ctx, res, "R01.8")
     from .c15 import load_positions_rule
 
